@@ -274,7 +274,8 @@ class C12(Property):
                 'association, relation, attachment, parent) and a random history of 1..25 public mutator calls, each on a '
                 'randomly chosen reachable element with arguments from a curated table (incl. Ontology.update from another '
                 'ontology or XML, deletions, clear); observed per call: serialization changed?, counter moved?, counter '
-                'decreased?; plus the census of unclassified public methods; non-trivial = at least 3 calls changed the '
+                'decreased?; scripted histories A, B, A of two mutators on one element (every ordered pair for properties); plus the '
+                'census of unclassified public methods; non-trivial = at least 3 calls changed the '
                 'serialization; distinct by content')
 
     def generate(self, rng, tier):
@@ -283,8 +284,30 @@ class C12(Property):
         for i in range(n):
             yield {'kind': 'history', 'seed': rng.randint(0, 10 ** 9), 'length': rng.randint(1, 25),
                    'allow_clear': i % 10 == 0}
+        # A, B, A on one element: every ordered pair of mutators of the property class (the class whose settings imply one
+        # another), a sample of the pairs of the other classes (all of them in the thorough tier)
+        table, _ = mutator_table()
+        classes = sorted({c for c, _m in table})
+        for cname in classes:
+            ms = sorted(m for c, m in table if c == cname and m != 'clear' and not (c == 'Ontology' and m == 'update'))
+            pairs = [(a, b) for a in ms for b in ms if a != b]
+            if cname != 'EventProperty' and tier == 'quick':
+                pairs = rng.sample(pairs, min(len(pairs), 40))
+            for a, b in pairs:
+                yield {'kind': 'history', 'seed': rng.randint(0, 10 ** 9), 'length': 3, 'allow_clear': False,
+                       'script': [[cname, a], [cname, b], [cname, a]]}
+
+    _memo = {}
 
     def history(self, case):
+        key = json.dumps(case, sort_keys=True)
+        if key not in self._memo:
+            if len(self._memo) > 20000:
+                self._memo.clear()
+            self._memo[key] = self.history_run(case)
+        return self._memo[key]
+
+    def history_run(self, case):
         """Run the history on the real code; returns list of steps."""
         rng = random.Random(case['seed'])
         o = seed_ontology(rng)
@@ -306,16 +329,31 @@ class C12(Property):
                     out.append([i, 'err:' + type(ex).__name__])
             return sorted(out)
         verdicts(validator, [0, 1])
+        script = case.get('script')
+        fixed_label, fixed_args = None, {}
         for step_no in range(case['length']):
-            label, e = rng.choice(targets(o))
-            cname = type(e).__name__
-            methods = sorted(m for (c, m) in table if c == cname)
-            if not case['allow_clear'] and 'clear' in methods:
-                methods.remove('clear')
-            m = rng.choice(methods)
+            if script:
+                # a scripted history: the named mutators of one class, all applied to the same element, a repeated mutator with
+                # the arguments of its first call (A, B, A: re-applying a setting after something else changed what it implies)
+                cname, m = script[step_no]
+                cands = [(l, x) for l, x in targets(o) if type(x).__name__ == cname]
+                if fixed_label is None and cands:
+                    fixed_label = rng.choice(cands)[0]
+                same = [(l, x) for l, x in cands if l == fixed_label]
+                if not same:
+                    continue
+                label, e = same[0]
+            else:
+                label, e = rng.choice(targets(o))
+                cname = type(e).__name__
+                methods = sorted(m for (c, m) in table if c == cname)
+                if not case['allow_clear'] and 'clear' in methods:
+                    methods.remove('clear')
+                m = rng.choice(methods)
             kind, argf = table[(cname, m)]
             try:
-                args = argf(rng, e, o)
+                args = fixed_args[m] if script and m in fixed_args else argf(rng, e, o)
+                fixed_args[m] = args
             except Exception:
                 continue
             before = flatten(o)
@@ -383,11 +421,13 @@ class C12(Property):
         return None
 
     def neighbours(self, case, rng):
+        if case.get('script'):
+            return [dict(case, seed=rng.randint(0, 10 ** 9)) for _ in range(20)]
         return [{'kind': 'history', 'seed': rng.randint(0, 10 ** 9), 'length': case.get('length', 10),
                  'allow_clear': False} for _ in range(100)]
 
     def reductions(self, case):
-        if case['kind'] == 'history':
+        if case['kind'] == 'history' and not case.get('script'):
             n = case['length']
             while n > 1:
                 n -= 1
